@@ -26,8 +26,8 @@ RULE = ('W: FileWrite on every (trailer subset x max physical record length x TI
 ASSUMPTIONS = ['only documented results are compared (Appendix A of DESIGN.md): bytes returned, counts skipped, None/0 at end of record, tellLr inside a record, isEOF after the last record',
                'checksum values are compared for even-length physical records only (the treatment of a trailing odd byte is not defined by the material available)',
                'reversed TIF files whose first marker is indistinguishable in both byte orders (first physical record of 244 bytes) are excluded, as the property states']
-BOUNDS = {'quick': 'W: all 8 trailer subsets x 5 lengths x 2 TIF x <=3 records; R: 4 trailer subsets x 5 lengths x 3 TIF x 28 record lists, depth 30 for capacity <= 7 (frontier closes), depth 3 for larger',
-          'thorough': 'R: 8 trailer subsets, 72 record lists, depth 40 / 5'}
+BOUNDS = {'quick': 'W: all 8 trailer subsets x 5 lengths x 2 TIF x <=3 records; R: 4 trailer subsets x 5 lengths x 3 TIF x 28 record lists, depth 30 for capacity <= 7 (frontier closes), depth 8 for larger',
+          'thorough': 'R: 8 trailer subsets, 72 record lists, depth 40 / 20'}
 LEVEL_TEXT = ('Reader: every reachable abstract state of the real reader on each enumerated file is expanded with every operation '
               'and compared with the reference cursor; for small capacities the frontier empties (all histories of any length are '
               'covered for those files). Writer and TIF stripping: exhaustive over the configuration product.')
@@ -340,7 +340,7 @@ def run_shard(shard, tier):
             continue
         P = cfg['maxlen'] - 4 - tlen(cfg['trailer'])
         small = P <= 7
-        depth = (30 if small else 3) if tier == 'quick' else (40 if small else 5)
+        depth = (30 if small else 8) if tier == 'quick' else (40 if small else 20)
         st, tr, closed = explore(cfg, depth, res)
         res.case(h64(repr(cfg)), nontrivial=True, outcome=h64((repr(cfg), st, tr)),
                  sample={'reader_cfg': cfg, 'states': st, 'transitions': tr, 'frontier_closed': closed} if i % 211 == 0 else None)
